@@ -336,8 +336,9 @@ class Ctx:
             self.pc.append(cond if d else z3.Not(cond))
             return d
         ft_ = self.o['feas_timeout']
-        rt = self.check(cond, tier=2, timeout=ft_)
-        rf = self.check(z3.Not(cond), tier=2, timeout=ft_)
+        ftier = self.o.get('feas_tier', 2)
+        rt = self.check(cond, tier=ftier, timeout=ft_)
+        rf = self.check(z3.Not(cond), tier=ftier, timeout=ft_)
         if rt == 'unknown' or rf == 'unknown':
             self.assumed_feasible += 1
         ft = rt != 'unsat'
@@ -364,6 +365,10 @@ class Ctx:
         if self.cache is not None:
             self.cache[self._ckey(label, bump=False)] = d
         return d
+
+    def _skip(self):
+        """fail-fast mode (canary runs): once an obligation has failed on this path the remaining ones are not evaluated"""
+        return bool(self.o.get('fail_fast')) and any(ob['res'] not in ('unsat', 'ground-ok') for ob in self.obligations)
 
     def _ckey(self, label, bump=True):
         if not hasattr(self, '_occ'):
@@ -395,6 +400,8 @@ class Ctx:
             return bool(cond)
         if self._cached(label) is not None:
             return True
+        if self._skip():
+            return True
         t = cond.t if isinstance(cond, SB) else cond
         t0 = time.time()
         r = self.check(z3.Not(t))
@@ -423,6 +430,8 @@ class Ctx:
         if self.mode == 'conc':
             return self._conc_eq(a, b, label)
         if self._cached(label) is not None:
+            return True
+        if self._skip():
             return True
         if isinstance(a, SInt):
             a = SV(z3.ToReal(a.t))
@@ -479,16 +488,19 @@ class Ctx:
         return ok
 
     def fail(self, label, detail=''):
-        """Unconditional failure on this path (structure mismatch, unexpected exception)."""
+        """Unconditional failure on this path (structure mismatch, unexpected exception).
+        A candidate input is taken from the cheapest satisfiable approximation of the path condition (no lemmas first);
+        it is only a candidate: the concrete replay against the real code decides whether it is reported."""
         if self.mode == 'conc':
             self.failed.append(dict(label=label, detail=detail))
             return
-        r = self.check()   # is the path itself feasible at the highest tier?
+        if self._skip():
+            return
+        r = self.check(tier=1, timeout=min(10000, self.o['timeout']))
         if r == 'unsat':
             raise Infeasible()
-        d = self._record(label, 'sat' if r == 'sat' else 'unknown', tier=self.last_tier, detail=detail, structural=True)
-        if r == 'sat':
-            d['model'] = self.model_values()
+        d = self._record(label, 'sat', tier=self.last_tier, detail=detail, structural=True)
+        d['model'] = self.model_values() if r == 'sat' else {}
 
     def ok(self, label):
         """Structural obligation that held (decided by Python-level comparison of concrete structure)."""
@@ -863,10 +875,18 @@ for _n in FLOAT_IMPL:
     setattr(SV, _n, _mk_method(_n))
 
 
+def canon(t):
+    """canonical form for memoisation: sum of monomials with sorted sums, so that algebraically equal polynomials built in a
+    different order share their abstraction symbol"""
+    if tsize(t, 4000) > 4000:
+        return z3.simplify(t)
+    return z3.simplify(t, som=True, sort_sums=True)
+
+
 def opaque(fn, *args):
     """Uninterpreted application memoised on the simplified arguments."""
     c = Ctx.cur
-    args = tuple(z3.simplify(a) for a in args)
+    args = tuple(canon(a) for a in args)
     cv = [const_of(a) for a in args]
     if all(v is not None for v in cv):
         try:
@@ -895,13 +915,13 @@ def opaque(fn, *args):
 
 def sdiv(num, den):
     c = Ctx.cur
-    den = z3.simplify(den)
+    den = canon(den)
     cd = const_of(den)
     if cd is not None:
         if cd == 0:
             raise ZeroDivisionError('division by zero')
         return SV(num * RV(1 / cd) if cd != 1 else num, tsize(num, 50) + 2)
-    num = z3.simplify(num)
+    num = canon(num)
     if const_of(num) == 0:
         if c.o['auto_div_domain']:
             c.pc.append(den != 0)
